@@ -95,8 +95,8 @@ func loadProgram(repo, harnessDir string, cfg *Config) (*Engine, error) {
 		if err != nil {
 			return err
 		}
-		if info.IsDir() || !strings.HasSuffix(p, ".go") {
-			return nil
+		if info.IsDir() || !strings.HasSuffix(p, ".go") || strings.HasSuffix(p, "registry_gen.go") || strings.HasSuffix(p, "_test.go") {
+			return nil // the registry and the replay test are only needed by the native build
 		}
 		rel, _ := filepath.Rel(harnessDir, p)
 		b, err := os.ReadFile(p)
